@@ -40,6 +40,10 @@
    Part 1d, the threshold reassigned at run time: auto_digest_threshold is a
    public attribute; a history may assign to it between two calls (SetThr).
 
+   Part 1e, several lysosomes in one program, built from one caller-owned
+   digesters mapping, on one clock: a world is the list of its objects; a
+   call on one object is a step of that object's history and of no other.
+
    Part 2, lock discipline: call-graph type filled in by the translator
    (coq/gen/Gen_C13.v), decidable checks (no self-deadlock, one lock, no
    unbounded loop / recursion, one critical section per call), and a one-lock
@@ -638,16 +642,111 @@ Definition final_row (ts : tstate) : list Z :=
         nfate AutoDiscarded s + nfate EmergFail s; nfate Expired s]
     ++ [lenZ (c_open cs); Z.of_nat (list_sum (map (@List.length op) (t_progs ts)))].
 
+(* ====================================================================== *)
+(* Part 1e: several lysosomes in one program                                *)
+
+(* A program may build several lysosomes - typically from ONE application-wide
+   table of custom digesters, the dict it passes as `digesters=` to every
+   constructor - and use them side by side on one clock.  Lysosome.__init__
+   builds a fresh table of its OWN built-in digesters and .update()s it with
+   the caller's mapping: the caller's dict is read, never written, and nothing
+   of one lysosome (its built-in _digest_toxic, hence its on_toxic; its queue,
+   counters, recycling bin) is reachable from another.  So a world is the
+   list of its objects, each with the configuration in force and its own state
+   (Part 1d), plus - ghost - the keys of the caller's mapping:
+
+     WNew cfg    Lysosome(..., digesters = the caller's mapping, on_toxic = a
+                 callback of its own): a fresh object, appended
+     WOn j o     a call on / an assignment to the j-th lysosome built (any step
+                 of Part 1d); not a call if there is no such object
+     WAdv d      the clock - there is one - moves: every object sees it *)
+
+Record world := mkW {
+  w_objs : list (config * cstate);
+  w_map : list Z }.     (* ghost: the waste types (0..4) the caller's digesters mapping has an entry for *)
+
+Inductive wop :=
+| WNew (cfg : config)
+| WOn (j : nat) (o : rop)
+| WAdv (d : Z).
+
+Definition tick (d : Z) : rop := ROp (Atomic (Advance d)).
+
+(* one step of the history of one object *)
+Definition obj_step (p : config * cstate) (o : rop) : config * cstate := fst (rstep (fst p) (snd p) o).
+
+Definition wstep (w : world) (o : wop) : world * cret :=
+  match o with
+  | WNew cfg => (mkW (w_objs w ++ [(cfg, cinit)]) (w_map w), CRet RNone)
+  | WOn j o' =>
+      match nth_error (w_objs w) j with
+      | None => (w, CBad)
+      | Some p => (mkW (set_nth j (obj_step p o') (w_objs w)) (w_map w), snd (rstep (fst p) (snd p) o'))
+      end
+  | WAdv d => (mkW (map (fun p => obj_step p (tick d)) (w_objs w)) (w_map w), CRet RNone)
+  end.
+
+Definition wrun_from (w : world) (ops : list wop) : world := fold_left (fun w o => fst (wstep w o)) ops w.
+
+(* from the empty world: every object is built by the history itself *)
+Definition wrun (m : list Z) (ops : list wop) : world := wrun_from (mkW [] m) ops.
+
+(* the history of object j inside a world history: the calls addressed to it, and the clock *)
+Fixpoint wproj (j : nat) (ops : list wop) : list rop :=
+  match ops with
+  | [] => []
+  | WNew _ :: r => wproj j r
+  | WOn i o :: r => if Nat.eqb i j then o :: wproj j r else wproj j r
+  | WAdv d :: r => tick d :: wproj j r
+  end.
+
+(* ---- correspondence ---------------------------------------------------- *)
+
+Definition cfg_row (cfg : config) : list Z := [max_queue cfg; auto_thr cfg; retention cfg; b2z (has_cb cfg)].
+
+(* after every step, about the WHOLE world: the keys of the caller's mapping,
+   and queue length / total_digested / length of the on_toxic log of every
+   object (so that a step that touches another object than the one it was
+   made on shows); last, the number of on_toxic calls that handed a callback
+   an item of another lysosome (never) *)
+Definition wtail (w : world) : list Z :=
+  [lenZ (w_map w)] ++ w_map w ++ [lenZ (w_objs w)]
+    ++ flat_map (fun p => let s := c_base (snd p) in [qlen s; n_digested s; lenZ (toxlog s)]) (w_objs w)
+    ++ [0].
+
+Definition wrow (w' : world) (o : wop) (r : cret) : list Z :=
+  match o with
+  | WNew cfg => 9 :: cfg_row cfg
+  | WAdv d => [8; d]
+  | WOn j _ =>
+      match r, nth_error (w_objs w') j with
+      | CBad, None => [-5]
+      | _, Some p => Z.of_nat j :: cret_row r ++ cstate_row (fst p) (snd p)
+      | _, None => [-5]
+      end
+  end ++ wtail w'.
+
+Fixpoint wrun_obs (w : world) (ops : list wop) : list (list Z) :=
+  match ops with
+  | [] => []
+  | o :: rest => let '(w', r) := wstep w o in wrow w' o r :: wrun_obs w' rest
+  end.
+
 (* a case: configuration, history [pre] (of the main thread, and of passes it
    drives; the threshold may be reassigned in between), and - for the runs of
    real threads under the scheduler of the harness - the programs of the
    threads and the schedule that was followed; [progs] = [] is a history
-   without scheduler threads *)
-Definition case := (config * list rop * list (list op) * list Z)%type.
+   without scheduler threads.  Last: (keys of the caller's digesters mapping,
+   world history) - when the world history is not empty the case is a history
+   of several lysosomes (Part 1e) and the other components are not used *)
+Definition case := (config * list rop * list (list op) * list Z * (list Z * list wop))%type.
 
 Definition run_case (c : case) : list (list Z) :=
-  let '(cfg, pre, progs, sched) := c in
-  [max_queue cfg; auto_thr cfg; retention cfg; b2z (has_cb cfg)] ::
+  let '(cfg, pre, progs, sched, (wkeys, wops)) := c in
+  cfg_row cfg ::
+  match wops with
+  | _ :: _ => wrun_obs (mkW [] wkeys) wops
+  | [] =>
   match progs with
   | [] => rrun_obs cfg cinit pre
   | _ :: _ =>
@@ -655,6 +754,7 @@ Definition run_case (c : case) : list (list Z) :=
       let ts0 := mkT (snd st) progs in
       let sch := map Z.to_nat sched in
       trun_obs (fst st) ts0 sch ++ [final_row (trun (fst st) ts0 sch)]
+  end
   end.
 
 (* ====================================================================== *)
